@@ -114,3 +114,20 @@ def schedule_strategy(max_decision=600, lines=(), nthreads=4, walk_len=200,
                 'walk': st.lists(st.sampled_from([0, 0, 0, 0, 0, 0, 1, 2, 3]),
                                  min_size=n, max_size=n)})))
     return st.one_of(*opts)
+
+
+def schedule_valid(s):
+    if not isinstance(s, dict):
+        return False
+    m = s.get('mode')
+    if m == 'none':
+        return True
+    if m == 'sparse':
+        return all(isinstance(e, list) and len(e) == 2 for e in s.get('pre', [0]))
+    if m == 'line':
+        return all(isinstance(e, list) and len(e) == 4 and isinstance(e[0], str) for e in s.get('pre', [0]))
+    if m == 'pct':
+        return bool(s.get('prio')) and isinstance(s.get('cps'), list)
+    if m == 'walk':
+        return isinstance(s.get('walk'), list)
+    return False
